@@ -4,7 +4,7 @@ EXTENDS YannyFile, TLC
 CONSTANTS MaxOps, Rich, Deviation     \* Rich: larger append menus; Deviation: "none" | "objectonly" | "clobber"
 VARIABLE nops, nextid, hist, start   \* bound on history length; fresh row / key ids; the calls made so far; the initial situation
 
-Keys == {"k1", "k2", "k3"}
+Keys == {"k1", "enum", "struct"}
 TablesDef == <<"TA", "TB">>
 mvars == <<fs, obj, model, last, nops, nextid, hist, start>>
 
